@@ -2,6 +2,7 @@
 quri_parts.circuit.transpile run on random circuits over the full vocabulary; the dense unitary of
 the output (numpy oracle from the documented matrices) must equal the input's up to a global phase
 within the transpiler's documented tolerance, or the call must raise."""
+import cmath
 import math
 import os
 import random
@@ -18,6 +19,19 @@ import quri_parts.circuit.transpile as T  # noqa: E402
 ONEQ = ["Identity", "X", "Y", "Z", "H", "S", "Sdag", "SqrtX", "SqrtXdag", "SqrtY", "SqrtYdag", "T", "Tdag"]
 VOCAB = ONEQ + ["RX", "RY", "RZ", "U1", "U2", "U3", "CNOT", "CZ", "SWAP", "TOFFOLI", "Pauli", "PauliRotation",
                 "UM1", "UM2"]
+
+
+def near_threshold_unitary(rng):
+    """e^{i phi} RZ(a) RY(t) RZ(b) with t within 1e-14 .. 1e-3 of 0 or pi: nearly diagonal / anti-diagonal matrices WITH a global
+    phase - the region where a decomposer switches between its branches and where the entries of a stored matrix (exact to
+    about 1e-7) have meaningless phases"""
+    t = 10.0 ** rng.uniform(-14, -3)
+    if rng.random() < 0.4:
+        t = math.pi - t
+    a, b, ph = O.rand_angle(rng), O.rand_angle(rng), rng.choice([0.0, 0.3, 1.0, -2.0, O.rand_angle(rng)])
+    rz = lambda x: np.diag([cmath.exp(-1j * x / 2), cmath.exp(1j * x / 2)])  # noqa: E731
+    ry = np.array([[math.cos(t / 2), -math.sin(t / 2)], [math.sin(t / 2), math.cos(t / 2)]])
+    return cmath.exp(1j * ph) * rz(a) @ ry @ rz(b)
 
 
 def rand_gate(rng, npr, n, kinds, id0=True):
@@ -45,8 +59,11 @@ def rand_gate(rng, npr, n, kinds, id0=True):
     if k == "U3":
         return gates.U3(qs[0], O.rand_angle(rng), O.rand_angle(rng), O.rand_angle(rng))
     if k == "UM1":
-        if rng.random() < 0.4:
+        r = rng.random()
+        if r < 0.4:
             m = O.CONST[rng.choice(ONEQ)]
+        elif r < 0.6:
+            m = near_threshold_unitary(rng)
         else:
             m = O.random_unitary(npr, 2)
         return gates.UnitaryMatrix([qs[0]], m.tolist())
@@ -240,6 +257,21 @@ def focused_checks(res, rng, npr, tier):
                 check_equal(res, "sweep:GateSetConversionTranspiler", f"GateSetConversionTranspiler({sorted(ts | {'RZ', 'CNOT'})})", c, g2(c), tol=1e-6)
             except ValueError:
                 pass
+    # (2b) single-qubit matrices next to the branch thresholds of the ZYZ decomposer, alone and through the presets that start
+    # with it
+    su2 = T.SingleQubitUnitaryMatrix2RYRZTranspiler()
+    for i in range(150 if tier == "quick" else 3000):
+        m = near_threshold_unitary(rng)
+        c = QuantumCircuit(rng.randint(1, 2))
+        c.add_gate(gates.UnitaryMatrix([rng.randrange(c.qubit_count)], m.tolist()))
+        res.count(("su2", i), bucket="focused:SU2_near_threshold")
+        for label, tr in (("SingleQubitUnitaryMatrix2RYRZTranspiler", su2), ("RZSetTranspiler", T.RZSetTranspiler())):
+            try:
+                out = tr(c)
+            except ValueError:
+                continue
+            check_equal(res, f"sweep:{label}:near_threshold_matrix", f"{label} on a nearly (anti-)diagonal matrix with a global phase", c, out,
+                        tol=1e-6)
     # (3) two-qubit unitaries with structure (local equivalents of CNOT / iSWAP / SWAP, degenerate spectra)
     kak = T.TwoQubitUnitaryMatrixKAKTranspiler()
     base = {"CNOT": O.local_matrix("CNOT"), "CZ": O.local_matrix("CZ"), "SWAP": O.local_matrix("SWAP"),
@@ -254,8 +286,15 @@ def focused_checks(res, rng, npr, tier):
             t = rng.uniform(0, 1)
             ph = np.diag(np.exp(1j * np.array([0, t, t, 2 * t])))
             m = base[bn] @ ph
-        else:
+        elif r < 0.93:
             m = np.kron(O.random_unitary(npr, 2), np.eye(2)) @ base[bn]
+        else:
+            # a small local rotation (1e-7 .. 1e-3 rad) away from a matrix with a degenerate spectrum: the decomposition must
+            # reproduce the rotation or raise, not return the nearby degenerate gate
+            e1, e2 = (10.0 ** rng.uniform(-7, -3) for _ in range(2))
+            zz = np.diag(np.exp(-0.5j * e1 * np.array([1, -1, -1, 1])))
+            ry = np.array([[math.cos(e2 / 2), -math.sin(e2 / 2)], [math.sin(e2 / 2), math.cos(e2 / 2)]])
+            m = base[bn] @ zz @ np.kron(np.eye(2), ry)
         c = QuantumCircuit(2)
         c.add_gate(gates.UnitaryMatrix(rng.sample(range(2), 2), m.tolist()))
         res.count(("kak", bn, _), bucket="focused:KAK")
